@@ -109,6 +109,10 @@ type MetaCDC struct {
 	}
 	// positionLock makes sure that the positions of a task aren't written while or after the task is deleted
 	positionLock sync.RWMutex
+	// positionMutexes serialize the position updates of a task (task id -> *sync.Mutex). The position record of a collection
+	// holds the positions of all its channels and is updated by reading and writing the whole record,
+	// and every target channel has its own goroutine.
+	positionMutexes sync.Map
 	// factoryCreator FactoryCreator
 	replicateEntityMap struct {
 		sync.RWMutex
@@ -661,6 +665,9 @@ func (e *MetaCDC) updateTaskPosition(taskID string, update func(writeCallback *W
 		log.Info("skip to update the position of the deleted task", zap.String("task_id", taskID))
 		return nil
 	}
+	mutex, _ := e.positionMutexes.LoadOrStore(taskID, &sync.Mutex{})
+	mutex.(*sync.Mutex).Lock()
+	defer mutex.(*sync.Mutex).Unlock()
 	return update(NewWriteCallback(e.metaStoreFactory, e.rootPath, taskID))
 }
 
